@@ -61,6 +61,8 @@ def units(tier):
         for d in DATA:
             for ordered in (True, False):
                 yield {"leg": "hist", "first": ["C", p, d, ordered], "depth": depth}
+    for perm in range(6):
+        yield {"leg": "seqtables", "perm": perm}
     if tier == "thorough":
         for k in range(3):
             yield {"leg": "big", "k": k}
@@ -363,6 +365,45 @@ def _hist(R, unit, only):
         scratch.rm(root)
 
 
+SEQT = [((2, 2), (2,)), ((1, 3), (2,)), ((3, 1), (2,))]     # fixed width 2 | variable | variable: same chromosome sizes (4, 2), 3 bins each
+
+
+def _seqtables(R, perm, only):
+    """collections on DIFFERENT bin tables that share chromosome names, lengths and bin count, created one after the other in one
+    process (ordered and unordered), in every order: the recorded bin type / bin size must follow each table"""
+    import cooler
+    order = list(itertools.permutations(range(3)))[perm]
+    R.add("states")
+    R.add("traces")
+    p = scratch.fresh()
+    try:
+        for rnd in range(2):
+            for step, ti in enumerate(order):
+                bins = alpha.table_bins(SEQT[ti], "chr")
+                pix = {(0, 0): 1 + ti, (0, 2): 5, (1, 1): 2, (2, 2): 7}
+                inner = {"round": rnd, "step": step, "table": ti}
+                R.order = (R.order[0], rnd * 3 + step)
+                R.ev(1, 1 if (rnd or step) else 0)
+                R.add("transitions")
+                R.cls("seqtables")
+                grp = "/" if step == 0 and rnd == 0 else f"/t{rnd}{step}"
+                try:
+                    if rnd == 0:
+                        cooler.create_cooler(p + "::" + grp, build.bins_df(bins), pixframe(pix), ordered=True, mode="w" if grp == "/" else "a")
+                    else:
+                        keys = sorted(pix)
+                        cooler.create_cooler(p + "::" + grp, build.bins_df(bins), iter([pixframe({k: pix[k] for k in keys[2:]}), pixframe({k: pix[k] for k in keys[:2]})]),
+                                             ordered=False, mode="a", mergebuf=1)
+                except Exception as e:
+                    R.mismatch("operation-raises:" + type(e).__name__, inner, f"{e!s:.200}")
+                    continue
+                v = h5ref.validate(p, grp)
+                if v:
+                    R.mismatch("V:" + v[0].split(":")[1], {**inner, "group": grp}, f"{v}")
+    finally:
+        scratch.rm(p)
+
+
 def _big(R, k, only):
     """dense upper matrix on 1450 bins: 1,051,975 pixels; pixel row 1,000,000 falls inside the run of one bin1 value. The value
     layout is shifted so that a run straddles / starts at / ends at row 1e6."""
@@ -422,5 +463,7 @@ def run(unit, R, tier, only=None):
         _hist(R, unit, only)
     elif leg == "big":
         _big(R, unit["k"], only)
+    elif leg == "seqtables":
+        _seqtables(R, unit["perm"], only)
     else:
         raise ValueError(leg)
